@@ -29,7 +29,8 @@ type vfHamActor struct {
 }
 
 type vfHamMsg struct {
-	Op string // noop | spawn | panic | failed | killself | reply
+	Op string // noop | spawn | panic | failed | killself | reply | reply2 | ask
+	To vivid.ActorRef // ask: whom to ask
 }
 
 func (a *vfHamActor) OnReceive(ctx vivid.ActorContext) {
@@ -53,6 +54,15 @@ func (a *vfHamActor) OnReceive(ctx vivid.ActorContext) {
 			ctx.Failed("vf-ham-failed")
 		case "killself":
 			ctx.Kill(ctx.Ref(), a.count.Load()%2 == 0, "vf-ham")
+		case "ask":
+			// the actor itself becomes an asker: its outstanding futures are swept when it dies or restarts, while replies
+			// (and timeouts) complete and deregister them from other goroutines
+			if m.To != nil {
+				f := ctx.Ask(m.To, &vfHamMsg{Op: "reply"}, time.Duration(1+a.count.Load()%40)*time.Millisecond)
+				if a.count.Load()%3 == 0 {
+					_ = f.PipeTo(vivid.ActorRefs{ctx.Ref()})
+				}
+			}
 		case "reply":
 			ctx.Reply(&vfHamMsg{Op: "noop"})
 		case "reply2": // two replies from two goroutines: both race for the same future
@@ -251,8 +261,13 @@ func vfHammerBatch(R *verifrt.Report, ci int, seed uint64, workers int, dur time
 					}
 					ops[0].Add(1)
 				case op < 40:
-					kinds := []string{"noop", "noop", "spawn", "spawn", "panic", "failed", "killself", "noop"}
-					sys.Tell(r, &vfHamMsg{Op: kinds[rng.Intn(len(kinds))]})
+					kinds := []string{"noop", "ask", "spawn", "spawn", "panic", "failed", "killself", "ask", "ask"}
+					k := kinds[rng.Intn(len(kinds))]
+					if k == "ask" {
+						sys.Tell(r, &vfHamMsg{Op: "ask", To: pick(rng)})
+					} else {
+						sys.Tell(r, &vfHamMsg{Op: k})
+					}
 					ops[1].Add(1)
 				case op < 52:
 					f := sys.Ask(r, &vfHamMsg{Op: "reply"}, 20*time.Millisecond)
@@ -338,8 +353,31 @@ func vfHammerBatch(R *verifrt.Report, ci int, seed uint64, workers int, dur time
 		}
 	}
 	reg, _, _ := vfHamTree(sys)
+	// a few callers keep asking while the system stops: the root (the asker of System.Ask) and every dying actor sweep
+	// their outstanding futures while new ones are registered and old ones complete
+	var stormStop atomic.Bool
+	var stormWG sync.WaitGroup
+	for g := 0; g < 4; g++ {
+		stormWG.Add(1)
+		go func(g int) {
+			defer stormWG.Done()
+			rng := verifrt.NewRand(seed + 991*uint64(g))
+			for i := 0; !stormStop.Load() && i < 200000; i++ {
+				if r := pick(rng); r != nil {
+					f := sys.Ask(r, &vfHamMsg{Op: "reply"}, time.Duration(1+rng.Intn(20))*time.Millisecond)
+					if i%4 == 0 {
+						_, _ = f.Result()
+					}
+					if i%7 == 0 {
+						sys.Tell(r, &vfHamMsg{Op: "ask", To: pick(rng)})
+					}
+				}
+			}
+		}(g)
+	}
+	defer func() { stormStop.Store(true); stormWG.Wait() }()
 	done := make(chan error, 1)
-	go func() { done <- sys.Stop(20 * time.Second) }()
+	go func() { done <- sys.Stop(20 * time.Second); stormStop.Store(true) }()
 	select {
 	case err := <-done:
 		if err != nil {
